@@ -175,7 +175,7 @@ def api_stream(ctx, dist):
             if k not in hostile:
                 v = ""
                 while not v.strip() or v in hostile.values():
-                    v = B.sanitize("".join(r.choice(gen_html.HOSTILE + ["q", "&#38;", "<b>", "{}", "%"]) for _ in range(r.randint(1, 3))))
+                    v = B.sanitize("".join(r.choice(gen_html.HOSTILE + ["q", "&#38;", "<b>", "{}", "%", "\\", "a\\b", "\\\\srv\\", "%20", "%5C", "%41", "/", "..", "+", "~", "\u2028", "?a=1", "A"]) for _ in range(r.randint(1, 3))))
                 hostile[k] = v
             return hostile[k]
         token = lambda k: "Qx%dxQ" % k
